@@ -1,1 +1,6 @@
-import Mp.EvalS
+import Mp.ProofsSim
+import Mp.ProofsL3
+/-! C10 — results do not depend on the Go carrier types: property theorems. -/
+#print axioms Mp.sim_normalize
+#print axioms Mp.func_carrier_independent
+#print axioms Mp.L2.path_carrier_independent
